@@ -8,6 +8,7 @@ import (
 	"time"
 
 	"github.com/skycoin/skycoin/src/daemon"
+	"github.com/skycoin/skycoin/src/daemon/gnet"
 
 	"verifsim/model"
 	"verifsim/sim"
@@ -126,7 +127,7 @@ func (s *peerSim) drawIntro(forceValid bool) introSpec {
 		fail("self")
 	}
 	if !forceValid {
-		in.version = []int32{2, 3, 1, 0, -5}[t.Pick("intro-version", 6, 1, 1, 1, 1)]
+		in.version = []int32{2, 3, 1, 0, -5, -2147483648, -2147483647, -2147483646, 2147483647, -1}[t.Pick("intro-version", 6, 1, 1, 1, 1, 1, 1, 1, 1, 1)]
 	}
 	if in.version < 2 {
 		fail("version")
@@ -257,6 +258,16 @@ func runIntroGate(c *sim.Ctx) {
 		live := s.livePeers()
 		if len(live) == 0 || t.Chance("new-peer", 1, 4) {
 			s.connectIn(s.pickAddr())
+			continue
+		}
+		if t.Chance("gate-time-passes", 1, 5) {
+			// a connection may sit there for a while before it says anything (the node only drops silent
+			// connections when its own housekeeping tick runs, which these runs never fire)
+			d := time.Duration(1+t.Int("gate-sleep", 25)) * time.Second
+			time.Sleep(d)
+			c.SimNanos += int64(d)
+			c.Count("fault.silent_connection_ages")
+			c.Logf("+%v", d)
 			continue
 		}
 		p := live[t.Int("peer", len(live))]
@@ -409,7 +420,11 @@ func runBookkeeping(c *sim.Ctx) {
 			addr := addrs[t.Int("pending", len(addrs))]
 			delete(s.pend, addr)
 			if t.Chance("connect-fails", 1, 3) {
-				s.n.dm.VerifConnectFailure(addr, fmt.Errorf("dial tcp %s: connect: connection refused", addr))
+				// the dial itself fails, or the pool refuses the new connection on its own account
+				ferr := []error{fmt.Errorf("dial tcp %s: connect: connection refused", addr), gnet.ErrMaxOutgoingConnectionsReached,
+					gnet.ErrMaxOutgoingDefaultConnectionsReached, gnet.ErrConnectionExists, gnet.ErrConnectionPoolClosed,
+					fmt.Errorf("dial tcp %s: i/o timeout", addr)}[t.Pick("connect-failure-kind", 4, 2, 1, 1, 1, 1)]
+				s.n.dm.VerifConnectFailure(addr, ferr)
 				s.ns.pump()
 				c.Count("fault.connect_failure")
 				c.Logf("outgoing attempt to %s failed", addr)
